@@ -20,6 +20,7 @@ func runC18(c *Ctx) {
 	r.Rule("one-response", "in handleMessage: from the call of HandleRequest every path to the return sends exactly one response; from the call of HandleNotification none; on every path at most one; every send is control-dependent on an `id != nil` test")
 	r.Rule("framing", "the writer field is used only in sendMessage, with the write mutex held for both writes; the header is Sprintf(\"Content-Length: %d\\r\\n\\r\\n\", len(content)) for the same content value that is written next")
 	r.Rule("doc-lock", "the documents map of DocumentManager is read under its RWMutex and written under the write lock (guarded-by rule restricted to pkg/lsp)")
+	r.Rule("mirror-coupling", "Document.Lines is always the split of Document.Content: every store to Content is followed in the same block by a store of splitLines(<that content>) into Lines of the same document, and applyChange receives Content and Lines loaded from the same document at the call")
 	r.Rule("bounds", "index/slice expressions of pkg/lsp are within bounds by a dominating guard (same engine as C01) or audited")
 	srv := p.Method("pkg/lsp", "Server", "handleMessage")
 	run := p.Method("pkg/lsp", "Server", "Run")
@@ -86,6 +87,7 @@ func runC18(c *Ctx) {
 		}
 	}
 	r.Floor("doc-lock", nd, 5, "accesses to the document map")
+	c18Mirror(c, p)
 	// R3 bounds
 	be := newBoundsEngine(p)
 	nb := 0
@@ -104,6 +106,164 @@ func runC18(c *Ctx) {
 		}
 	}
 	r.Floor("bounds", nb, 20, "index/slice expressions in pkg/lsp")
+}
+
+func c18Mirror(c *Ctx, p *core.Prog) {
+	r := c.R
+	n := 0
+	for _, fn := range p.SrcFuncs("pkg/lsp") {
+		seq := 0
+		for _, b := range fn.Blocks {
+			for i, in := range b.Instrs {
+				switch x := in.(type) {
+				case *ssa.Store:
+					fa, ok := x.Addr.(*ssa.FieldAddr)
+					if !ok || core.FieldName(fa.X.Type(), fa.Field) != "Content" {
+						continue
+					}
+					if nt := core.NamedOf(fa.X.Type()); nt == nil || nt.Obj().Name() != "Document" {
+						continue
+					}
+					if a, isAlloc := fa.X.(*ssa.Alloc); isAlloc && a.Heap {
+						continue // a fresh Document (Open builds it with both fields; Get returns a copy of a coupled pair)
+					}
+					n++
+					seq++
+					key := core.FnName(fn) + sprintf("|Content#%d", seq)
+					ok2 := false
+					for _, later := range b.Instrs[i+1:] {
+						st, isSt := later.(*ssa.Store)
+						if !isSt {
+							continue
+						}
+						fl, isFa := st.Addr.(*ssa.FieldAddr)
+						if !isFa || core.FieldName(fl.X.Type(), fl.Field) != "Lines" || fl.X != fa.X {
+							continue
+						}
+						if call, isCall := st.Val.(*ssa.Call); isCall && call.Call.StaticCallee() != nil && call.Call.StaticCallee().Name() == "splitLines" {
+							arg := call.Call.Args[0]
+							// the argument is the stored content value, or a fresh load of the Content field just stored
+							if arg == x.Val || sameFieldLoad(arg, x.Val) {
+								ok2 = true
+							}
+							if u, isLoad := arg.(*ssa.UnOp); isLoad {
+								if fc, isFc := u.X.(*ssa.FieldAddr); isFc && fc.X == fa.X && core.FieldName(fc.X.Type(), fc.Field) == "Content" {
+									ok2 = true
+								}
+							}
+						}
+					}
+					if ok2 {
+						r.OK("mirror-coupling", key, p.Pos(x.Pos()), "Lines re-split from the new content in the same block")
+					} else {
+						r.Violate("mirror-coupling", key, p.Pos(x.Pos()), "Document.Content is assigned without re-splitting Document.Lines from it in the same step: positions of the next edit are resolved against stale lines")
+					}
+				case *ssa.Call:
+					if f := x.Call.StaticCallee(); f == nil || f.Name() != "applyChange" || len(x.Call.Args) < 2 {
+						continue
+					}
+					n++
+					seq++
+					key := core.FnName(fn) + sprintf("|applyChange#%d", seq)
+					fresh := func(v ssa.Value, field string) ssa.Value {
+						u, ok := v.(*ssa.UnOp)
+						if !ok || u.Block() != b {
+							return nil
+						}
+						fa, ok := u.X.(*ssa.FieldAddr)
+						if !ok || core.FieldName(fa.X.Type(), fa.Field) != field {
+							return nil
+						}
+						return fa.X
+					}
+					dc, dl := fresh(x.Call.Args[0], "Content"), fresh(x.Call.Args[1], "Lines")
+					if dc != nil && dl != nil && dc == dl {
+						r.OK("mirror-coupling", key, p.Pos(x.Pos()), "content and lines loaded from the same document at the call")
+					} else {
+						r.Violate("mirror-coupling", key, p.Pos(x.Pos()), "applyChange is not given the document's current Content and Lines (both loaded at the call): an edit is positioned with a line table that does not belong to the text it is applied to")
+					}
+				}
+			}
+		}
+	}
+	r.Floor("mirror-coupling", n, 3, "Content stores / applyChange calls")
+	// Open builds a fresh Document: its composite literal must split the very content it stores
+	c18OpenLiteral(c, p)
+}
+
+// c18OpenLiteral: wherever a Document literal is built with a Content, its Lines is splitLines(that content)
+// or a copy of the Lines of the document whose Content is copied.
+func c18OpenLiteral(c *Ctx, p *core.Prog) {
+	r := c.R
+	for _, fn := range p.SrcFuncs("pkg/lsp") {
+		seq := 0
+		for _, b := range fn.Blocks {
+			for _, in := range b.Instrs {
+				a, ok := in.(*ssa.Alloc)
+				if !ok || !a.Heap {
+					continue
+				}
+				if nt := core.NamedOf(a.Type()); nt == nil || nt.Obj().Name() != "Document" {
+					continue
+				}
+				var content, lines ssa.Value
+				for _, ref := range core.Referrers(a) {
+					if fa, ok := ref.(*ssa.FieldAddr); ok {
+						for _, r2 := range core.Referrers(fa) {
+							if st, ok := r2.(*ssa.Store); ok && st.Addr == ssa.Value(fa) {
+								switch core.FieldName(fa.X.Type(), fa.Field) {
+								case "Content":
+									content = st.Val
+								case "Lines":
+									lines = st.Val
+								}
+							}
+						}
+					}
+				}
+				if content == nil {
+					continue
+				}
+				seq++
+				key := core.FnName(fn) + sprintf("|Document{}#%d", seq)
+				ok2 := false
+				if call, isCall := lines.(*ssa.Call); isCall && call.Call.StaticCallee() != nil && call.Call.StaticCallee().Name() == "splitLines" && (call.Call.Args[0] == content || sameFieldLoad(call.Call.Args[0], content)) {
+					ok2 = true
+				}
+				// copy of an existing coupled pair: Content and Lines (or a copy of Lines) of the same source document
+				if uc, isLoad := content.(*ssa.UnOp); isLoad {
+					if fc, isFa := uc.X.(*ssa.FieldAddr); isFa && core.FieldName(fc.X.Type(), fc.Field) == "Content" && lines != nil {
+						ok2 = true
+					}
+				}
+				if ok2 {
+					r.OK("mirror-coupling", key, p.Pos(a.Pos()), "")
+				} else {
+					r.Violate("mirror-coupling", key, p.Pos(a.Pos()), "a Document is built whose Lines is not the split of its Content")
+				}
+			}
+		}
+	}
+}
+
+// sameFieldLoad: a and b are loads of the same field of the same object value.
+func sameFieldLoad(a, b ssa.Value) bool {
+	ua, ok1 := a.(*ssa.UnOp)
+	ub, ok2 := b.(*ssa.UnOp)
+	if !ok1 || !ok2 {
+		return false
+	}
+	fa, ok1 := ua.X.(*ssa.FieldAddr)
+	fb, ok2 := ub.X.(*ssa.FieldAddr)
+	return ok1 && ok2 && fa.Field == fb.Field && (fa.X == fb.X || sameFieldLoadAddr(fa.X, fb.X))
+}
+
+func sameFieldLoadAddr(a, b ssa.Value) bool {
+	// both are the address of the same local (range variable copy) or loads of it
+	if a == b {
+		return true
+	}
+	return false
 }
 
 var lspBoundsAudit = map[string]string{
